@@ -56,6 +56,7 @@ static void print_sol(CoordinateGeometry2D& g, World& w) {
 }
 
 static int run_net(const vector<string>& t);
+static int run_obsdh(const vector<string>& t);
 static int run_acord(const vector<string>& t);
 static int run_acord2(const vector<string>& t);
 
@@ -187,6 +188,8 @@ int main()
         std::cout << "ori " << vp::hex(z) << " " << n << "\n";
       } else if (op == "net" && t.size() == 2) {
         run_net(t);
+      } else if (op == "obsdh" && t.size() == 3) {
+        run_obsdh(t);
       } else if (op == "acorddbg" && t.size() == 2) {
         // investigation aid: the rounds of Acord2::execute unrolled, the point list after every strategy
         std::unique_ptr<LocalNetwork> IS(new LocalNetwork);
@@ -323,6 +326,80 @@ static int run_net(const vector<string>& t)
                 << vp::hex(p.test_z() ? p.z() : 0) << "\n";
     }
   }
+  return 0;
+}
+
+
+// `obsdh <file.gkf> <maxiter>`: parse, approximate coordinates, then the real refine_obsdh_reductions in both modes at
+// four places (before the adjustment from zero reductions; adjusted mode after the adjustment; after one
+// refine_approx_coordinates with non-zero reductions stored; adjusted mode on the state refine_adjustment() leaves).
+// Before every call the state the function reads is dumped as the argument list of the model op (`dh …`), after it
+// the returned status and the stored reductions (`res …`).  `iters n max` reports the real refine_adjustment().
+static void dump_dh(LocalNetwork* IS, bool adjusted)
+{
+  Vec x;
+  if (adjusted) x = IS->solve();
+  const int nx = adjusted ? int(x.dim()) : 0;
+  std::cout << "dh " << (adjusted ? 1 : 0) << " " << nx;
+  for (int i = 1; i <= nx; i++) std::cout << " " << vp::hex(x(i));
+  auto pt = [&](const PointID& id) {
+    const LocalPoint& p = IS->PD[id];
+    std::cout << " " << vp::hex(p.test_xy() ? p.x() : 0) << " " << vp::hex(p.test_xy() ? p.y() : 0) << " "
+              << vp::hex(p.test_z() ? p.z() : 0) << " " << (p.free_xy() ? 1 : 0) << " " << (p.free_z() ? 1 : 0) << " "
+              << (adjusted ? p.index_x() : 0) << " " << (adjusted ? p.index_y() : 0) << " " << (adjusted ? p.index_z() : 0)
+              << " " << (p.test_xyz() ? 1 : 0);
+  };
+  for (auto o = IS->OD.begin(); o != IS->OD.end(); ++o) {
+    Observation* pm = *o;
+    int k = dynamic_cast<S_Distance*>(pm) ? 0 : dynamic_cast<Z_Angle*>(pm) ? 1 : 2;
+    if (k == 2) continue;        // other classes are not read at all (the model leaves them untouched: kind 2)
+    std::cout << " " << k << " " << vp::hex(pm->value() - pm->reduction()) << " " << vp::hex(pm->from_dh()) << " "
+              << vp::hex(pm->to_dh()) << " " << vp::hex(pm->reduction());
+    pt(pm->from());
+    pt(pm->to());
+  }
+  std::cout << "\n";
+}
+
+static void dump_res(LocalNetwork* IS, bool status)
+{
+  std::cout << "res " << (status ? 1 : 0);
+  for (auto o = IS->OD.begin(); o != IS->OD.end(); ++o) {
+    Observation* pm = *o;
+    if (dynamic_cast<S_Distance*>(pm) || dynamic_cast<Z_Angle*>(pm)) std::cout << " " << vp::hex(pm->reduction());
+  }
+  std::cout << "\n";
+}
+
+static int run_obsdh(const vector<string>& t)
+{
+  std::unique_ptr<LocalNetwork> IS(new LocalNetwork);
+  {
+    std::ifstream inp(t[1]);
+    GNU_gama::local::GKFparser gkf(*IS);
+    string line;
+    while (std::getline(inp, line)) { line += "\n"; gkf.xml_parse(line.c_str(), line.length(), 0); }
+    gkf.xml_parse("", 0, 1);
+  }
+  const int maxiter = atoi(t[2].c_str());
+  IS->set_algorithm("envelope");
+  IS->remove_inconsistency();
+  Acord2 acord2(IS->PD, IS->OD);
+  acord2.execute();
+  dump_dh(IS.get(), false);
+  dump_res(IS.get(), refine_obsdh_reductions(IS.get()));
+  if (IS->huge_abs_terms()) IS->remove_huge_abs_terms();
+  IS->solve();
+  dump_dh(IS.get(), true);
+  dump_res(IS.get(), refine_obsdh_reductions(IS.get(), true));
+  IS->refine_approx_coordinates();
+  dump_dh(IS.get(), false);
+  dump_res(IS.get(), refine_obsdh_reductions(IS.get()));
+  IS->set_max_linearization_iterations(maxiter);
+  IS->refine_adjustment();
+  std::cout << "iters " << IS->linearization_iterations() << " " << IS->max_linearization_iterations() << "\n";
+  dump_dh(IS.get(), true);
+  dump_res(IS.get(), refine_obsdh_reductions(IS.get(), true));
   return 0;
 }
 
